@@ -12,7 +12,7 @@ from sa.dom import COMMENT, ETREE_COMMENT, ETREE_PI, El, install_dom
 from sa.sym import closure_of, explore, method_of
 
 OPACITIES = [None, "0", "0.5", "1", "1.5", "-0.5", "0.25", "1.0"]
-KIDS = [(), ("path",), ("path", "path"), ("g", "path"), ("path", "g", "path"), ("g",), ("text", "path")]
+KIDS = [(), ("path",), ("path", "path"), ("g", "path"), ("path", "g", "path"), ("g",), ("text", "path"), ("path", "path", "path")]
 
 
 def clamp(v):
@@ -35,7 +35,14 @@ def _mk(tag, attrib, kids, noise):
     for i, k in enumerate(kids):
         if nc > i:
             ch.append(El(ETREE_COMMENT, name=f"c{i}"))
-        ch.append(El(k, {"id": f"k{i}"}, name=f"k{i}"))
+        at = {"id": f"k{i}"}
+        if k == "path":
+            # concrete squares: the first and the last path overlap, those between lie elsewhere (so with three children the overlapping
+            # pair is not adjacent): flattening a translucent group would change how they composite
+            paths = [j for j, kk in enumerate(kids) if kk == "path"]
+            x = 0 if i == paths[0] else 3 if i == paths[-1] else 100 * i
+            at["d"] = f"M{x},0 L{x + 10},0 L{x + 10},10 L{x},10 Z"
+        ch.append(El(k, at, name=f"k{i}"))
         if npi > i:
             ch.append(El(ETREE_PI, name=f"pi{i}"))
     if nc > len(kids) or (nc and not kids):
@@ -44,7 +51,9 @@ def _mk(tag, attrib, kids, noise):
 
 
 def _setup(it):
+    from sa.skia import install_skia
     install_dom(it)
+    install_skia(it)
 
 
 def check_removable_predicate(repo: Repo, rep: Report, rule: str, what: str):
